@@ -28,7 +28,10 @@ RULE = ("Hypothesis draws 1-3 factor matrices (rows 1-5, rank 1-6; explicit smal
         "Oracle for congruence_coefficient / cp_permute_factors: enumeration of all R! matchings of the product-over-modes cosine "
         "matrix (values compared, never permutations, so ties are accepted). CorrIndex: range, zero on equivalent sets, lower bound "
         "0.01/(2R) when a column has no partner with |cos| > 0.99, equality with the published formula, invariance. MSE/RMSE/R2/"
-        "correlation/covariance: NumPy definitions for every axis (incl. negative, None). Leverage scores: float32/float64, full-rank "
+        "correlation/covariance/variance/std: NumPy definitions for every axis (incl. negative, None, omitted); the centred moments "
+        "also on data sitting on an offset (x = offset + O(1) data, offset in {0, 1e3, 1e5, 1e6, 1e7}, both operands, either sign) "
+        "against an extended-precision two-pass reference at 64 eps (kappa_x + kappa_y + 1) x scale, kappa = |mean|/std, plus shift "
+        "invariance correlation(x + c, y + d) == correlation(x, y). Leverage scores: float32/float64, full-rank "
         "and exactly rank-deficient (product of integer factors) matrices against diag(A A^+)/rank. Non-trivial: R >= 3 and a "
         "non-identity permutation for the matching metrics; >= 2 entries along the reduced axis for error metrics; rank-deficient or "
         "float32 input for leverage scores; distinct = distinct case hash.")
@@ -475,36 +478,143 @@ def o_r2(case):
     return {"nontrivial": gen.prod(case["shape"]) >= 2, "labels": [f"order={len(case['shape'])}"]}
 
 
-def o_correlation(case):
-    a, b = gen.dec(case["a"]), gen.dec(case["b"])
-    ax = _axis(case)
-    am = a - np.mean(a, axis=ax, keepdims=True)
-    bm = b - np.mean(b, axis=ax, keepdims=True)
-    saa, sbb, sab = np.sum(am * am, axis=ax), np.sum(bm * bm, axis=ax), np.sum(am * bm, axis=ax)
+# ---- conditioning-aware clauses (data on a large offset: |mean| >> std) -------------------------
+# Pearson correlation / covariance / variance are shift invariant.  For data x = offset + noise the
+# two-pass definition mean((x - mean x)(y - mean y)) loses ~ kappa * eps (kappa = |mean| / std) at
+# worst, whereas the algebraically identical one-pass form E[xy] - E[x]E[y] loses ~ kappa^2 * eps.
+# Measured on the unchanged code over 6000 random cases (offsets 0, 1e3 .. 1e7, every axis argument),
+# against an extended-precision two-pass reference: worst error 1.5 * eps * (kappa_x + kappa_y + 1)
+# (covariance 0.8, variance 1.3, std 1.1, correlation 1.5, shift invariance 0.3); the one-pass form
+# gives >= 8e3 in the same unit as soon as one operand sits on an offset >= 1e3 (nan from offsets
+# >= 1e6).  The clauses allow KAPPA_K = 64 such units.
+EPS = float(np.finfo(np.float64).eps)
+KAPPA_K = 64.0
+_LD = np.longdouble
+
+
+@st.composite
+def _offset_case(draw, min_side=2):
+    """error-metric case whose operands sit on drawn offsets (x = offset + O(1) data)"""
+    c = draw(_err_case(min_side=min_side))
+    # offsets are listed large-first: Hypothesis favours the first element of sampled_from
+    offs = [1e7, 1e6, 1e5, 1e3, 0.0]
+    c["off_a"] = draw(st.sampled_from(offs)) * draw(st.sampled_from([1, -1]))
+    c["off_b"] = draw(st.sampled_from(offs)) * draw(st.sampled_from([1, -1]))
+    return c
+
+
+def _operands(case):
+    return gen.dec(case["a"]) + case.get("off_a", 0.0), gen.dec(case["b"]) + case.get("off_b", 0.0)
+
+
+def _f64(v):
+    return np.asarray(v, dtype=np.float64)
+
+
+def _two_pass(a, b, ax):
+    """extended-precision two-pass moments: cov, var_a, var_b, |mean_a|, |mean_b| (float64, reduced shape)"""
+    A, B = a.astype(_LD), b.astype(_LD)
+    am, bm = A - A.mean(axis=ax, keepdims=True), B - B.mean(axis=ax, keepdims=True)
     n = a.size if ax is None else a.shape[ax]
-    # constant slices have no correlation (0/0); near-constant ones are ill-conditioned
-    lim = 1e-6 * max(float(np.max(a * a)), float(np.max(b * b)), 1e-300) * n
-    if np.any(saa <= lim) or np.any(sbb <= lim):
+    return (_f64((am * bm).sum(axis=ax) / n), _f64((am * am).sum(axis=ax) / n), _f64((bm * bm).sum(axis=ax) / n),
+            _f64(np.abs(A.mean(axis=ax))), _f64(np.abs(B.mean(axis=ax))))
+
+
+def _well_defined(a, b, va, vb):
+    """slices that are (numerically) constant have no correlation: 0/0"""
+    return bool(np.all(np.sqrt(va) > 1e3 * EPS * np.max(np.abs(a))) and np.all(np.sqrt(vb) > 1e3 * EPS * np.max(np.abs(b))))
+
+
+def _within(got, want, tol, clause, what):
+    g = as_array(got, clause)
+    want, tol = np.asarray(want), np.asarray(tol)
+    check(tuple(g.shape) == tuple(want.shape), clause + "/shape", lambda: f"shape {tuple(g.shape)} != expected {tuple(want.shape)}")
+    check(bool(np.all(np.isfinite(g))), clause + "/finite", lambda: f"{what}: non-finite value(s) {np.asarray(g).ravel()[:4].tolist()}")
+    err = np.abs(g - want)
+    check(bool(np.all(err <= tol)), clause,
+          lambda: f"{what}: max |got - expected| = {float(np.max(err)):.3e}, {float(np.max(err / np.maximum(tol, 1e-300))):.3g} x the tolerance "
+                  f"{KAPPA_K:g} eps (kappa_x + kappa_y + 1) scale")
+
+
+def _kappa_class(k):
+    return "kappa=" + ("<1e2" if k < 1e2 else "1e2-1e4" if k < 1e4 else "1e4-1e6" if k < 1e6 else ">=1e6")
+
+
+def _off_labels(case, ka, kb):
+    return _err_labels(case) + [f"off_a={abs(case.get('off_a', 0.0)):g}", f"off_b={abs(case.get('off_b', 0.0)):g}",
+                                _kappa_class(float(max(np.max(ka), np.max(kb))))]
+
+
+def _what(case):
+    return f"axis={case['axis']} offsets=({case.get('off_a', 0.0):g}, {case.get('off_b', 0.0):g})"
+
+
+def o_correlation(case):
+    a, b = _operands(case)
+    ax = _axis(case)
+    cov, va, vb, ma, mb = _two_pass(a, b, ax)
+    if not _well_defined(a, b, va, vb):
         discard("constant slice (correlation undefined)")
-    want = sab / np.sqrt(saa * sbb)
+    sa, sb = np.sqrt(va), np.sqrt(vb)
+    ka, kb = ma / sa, mb / sb
     got = MR.correlation(a.copy(), b.copy(), **_akw(case))
-    close(got, want, "correlation/definition", rel=1e-10, scale=1.0)
+    tol = KAPPA_K * EPS * (ka + kb + 1)
+    _within(got, cov / (sa * sb), tol, "correlation/definition", _what(case))
     g = as_array(got, "correlation/definition")
-    check(bool(np.all(np.abs(g) <= 1 + 1e-10)), "correlation/range", lambda: f"{g}")
-    return {"nontrivial": _err_nt(case), "labels": _err_labels(case)}
+    check(bool(np.all(np.abs(g) <= 1 + tol)), "correlation/range", lambda: f"|r| > 1: {np.asarray(g).ravel()[:4].tolist()}")
+    return {"nontrivial": _err_nt(case), "labels": _off_labels(case, ka, kb)}
+
+
+@st.composite
+def _shift_case(draw):
+    c = draw(_offset_case())
+    sh = [1e7, 1e6, 1e5, 1e3, 0.0, -1e6]
+    c["shift_a"] = draw(st.sampled_from(sh))
+    c["shift_b"] = draw(st.sampled_from(sh))
+    return c
+
+
+def o_correlation_shift(case):
+    """metamorphic: correlation(x + c, y + d) == correlation(x, y)"""
+    a, b = _operands(case)
+    ax = _axis(case)
+    a2, b2 = a + case["shift_a"], b + case["shift_b"]
+    _, va, vb, ma, mb = _two_pass(a, b, ax)
+    _, va2, vb2, ma2, mb2 = _two_pass(a2, b2, ax)
+    if not (_well_defined(a, b, va, vb) and _well_defined(a2, b2, va2, vb2)):
+        discard("constant slice (correlation undefined)")
+    k1 = ma / np.sqrt(va) + mb / np.sqrt(vb)
+    k2a, k2b = ma2 / np.sqrt(va2), mb2 / np.sqrt(vb2)
+    r1 = MR.correlation(a.copy(), b.copy(), **_akw(case))
+    r2 = MR.correlation(a2.copy(), b2.copy(), **_akw(case))
+    g1 = as_array(r1, "correlation/shift-invariance")
+    check(bool(np.all(np.isfinite(g1))), "correlation/shift-invariance/finite", lambda: f"correlation(x, y) = {np.asarray(g1).ravel()[:4].tolist()}")
+    # rounding x + c perturbs the noise by |c| eps / 2, i.e. the centred data by ~ kappa eps: same unit as above
+    tol = KAPPA_K * EPS * (k1 + k2a + k2b + 1)
+    _within(r2, g1, tol, "correlation/shift-invariance", _what(case) + f" shifts=({case['shift_a']:g}, {case['shift_b']:g})")
+    return {"nontrivial": _err_nt(case) and (case["shift_a"] != 0 or case["shift_b"] != 0),
+            "labels": _off_labels(case, k2a, k2b) + [f"shift_a={abs(case['shift_a']):g}", f"shift_b={abs(case['shift_b']):g}"]}
 
 
 def o_moments(case):
-    a, b = gen.dec(case["a"]), gen.dec(case["b"])
+    a, b = _operands(case)
     ax = _axis(case)
-    n = a.size if ax is None else a.shape[ax]
-    am = a - np.mean(a, axis=ax, keepdims=True)
-    bm = b - np.mean(b, axis=ax, keepdims=True)
-    sc = max(float(np.max(np.abs(a))), float(np.max(np.abs(b))), 1e-300) ** 2
-    close(MR.covariance(a.copy(), b.copy(), **_akw(case)), np.sum(am * bm, axis=ax) / n, "covariance/definition", rel=1e-12, scale=sc)
-    close(MR.variance(a.copy(), **_akw(case)), np.var(a, axis=ax), "variance/definition", rel=1e-12, scale=sc)
-    close(MR.standard_deviation(a.copy(), **_akw(case)), np.std(a, axis=ax), "standard_deviation/definition", rel=1e-8, scale=np.sqrt(sc))
-    return {"nontrivial": _err_nt(case), "labels": _err_labels(case)}
+    cov, va, vb, ma, mb = _two_pass(a, b, ax)
+    # scale of the quantities = the spreads, floored at the rounding level of the data so that constant slices stay testable
+    fa, fb = EPS * np.max(np.abs(a)), EPS * np.max(np.abs(b))
+    sa, sb = np.maximum(np.sqrt(va), fa), np.maximum(np.sqrt(vb), fb)
+    sa, sb = np.maximum(sa, 1e-300), np.maximum(sb, 1e-300)
+    ka, kb = ma / sa, mb / sb
+    what = _what(case)
+    _within(MR.covariance(a.copy(), b.copy(), **_akw(case)), cov, KAPPA_K * EPS * (ka + kb + 1) * sa * sb, "covariance/definition", what)
+    tol_var = KAPPA_K * EPS * (2 * ka + 1) * sa * sa
+    gv = MR.variance(a.copy(), **_akw(case))
+    _within(gv, va, tol_var, "variance/definition", what)
+    check(bool(np.all(as_array(gv, "variance/definition") >= 0)), "variance/nonneg", lambda: f"{what}: negative variance {np.asarray(gv).ravel()[:4].tolist()}")
+    # d sqrt(v) = dv / (2 sqrt(v)) where the spread is resolved; (numerically) constant slices get the absolute bound sqrt(tol_var)
+    tol_std = np.where(np.sqrt(va) > 1e3 * fa, tol_var / np.maximum(np.sqrt(va), 1e-300), np.sqrt(tol_var))
+    _within(MR.standard_deviation(a.copy(), **_akw(case)), np.sqrt(va), tol_std, "standard_deviation/definition", what)
+    return {"nontrivial": _err_nt(case), "labels": _off_labels(case, ka, kb)}
 
 
 def o_reflective(case):
@@ -624,9 +734,10 @@ def subchecks(tier):
         SubCheck("cp_permute_factors/optimal", _cpperm_case(), o_cp_permute, quick=q, thorough=t),
         SubCheck("MSE_RMSE/definition", _err_case(), o_mse, quick=q, thorough=t),
         SubCheck("R2/definition", _err_case(), o_r2, quick=q, thorough=t),
-        SubCheck("correlation/definition", _err_case(min_side=2), o_correlation, quick=q, thorough=t),
+        SubCheck("correlation/definition", _offset_case(min_side=2), o_correlation, quick=q, thorough=t),
+        SubCheck("correlation/shift_invariance", _shift_case(), o_correlation_shift, quick=q, thorough=t),
         SubCheck("reflective_correlation/definition", _err_case(), o_reflective, quick=q, thorough=t),
-        SubCheck("moments/definition", _err_case(), o_moments, quick=q, thorough=t),
+        SubCheck("moments/definition", _offset_case(min_side=1), o_moments, quick=q, thorough=t),
         SubCheck("leverage/distribution", _lev_case(), _o_leverage("distribution"), quick=q, thorough=t),
         SubCheck("leverage/definition", _lev_case(), _o_leverage("definition"), quick=q, thorough=t),
     ]
